@@ -68,6 +68,10 @@ def tag(v):
     if isinstance(v, bool):
         return ["b", "true" if v else "false"]
     if isinstance(v, int):
+        if not (-2**63 <= v < 2**63):
+            # JSON / TOML / YAML have one number type per notation; a whole number outside
+            # the 64-bit integers is a double in bkl's data model
+            return ["f", repr(float(v))]
         return ["i", str(v)]
     if isinstance(v, float):
         return ["f", repr(v)]
